@@ -30,7 +30,7 @@ BUILD = os.path.join(VERIF, "build")
 # or /verif/replay.  The registered commands never set them.
 OUT = os.environ.get("VERIF_OUT", VERIF)
 COQ = os.path.join(VERIF, "coq")
-if OUT != VERIF:
+if OUT != VERIF and REPO != "/repo":
     # scratch run: work on a private copy of the Coq tree so that a translator
     # output that differs (seeded change to a translated constant) never touches
     # the shared coq/Gen, and concurrent runs do not disturb each other
@@ -498,7 +498,9 @@ class Check:
         shutil.copy(os.path.join(REPO, "go.sum"), os.path.join(hdir, "go.sum"))
         exe = os.path.join(bindir, pkg + ("-race" if race else ""))
         os.makedirs(os.path.dirname(exe), exist_ok=True)
-        cmd = [GO, "build", "-tags", "verif", "-o", exe]
+        # -trimpath: object files do not depend on the directory of the source tree, so scratch
+        # worktrees share the build cache instead of filling the disk with one copy each
+        cmd = [GO, "build", "-trimpath", "-tags", "verif", "-o", exe]
         envx = {}
         if race:
             cmd.append("-race")
